@@ -54,6 +54,10 @@ class Contract:
         self.bind = dict(kw.pop("bind", {}))
         # ghost definitions evaluated once in the pre-state, usable in requires/ensures/invariants: [(name, expr)]
         self.let = [(str(a), str(b)) for a, b in kw.pop("let", [])]
+        # the result IS this specification expression (call sites get the term itself, the body is checked
+        # against `result == <expr>`)
+        self.result_is = kw.pop("result_is", None)
+        self._kw = None
         # extra runs with some parameter types replaced, e.g. [{"second": "obj:BloomFilterOnDisk"}, {"second": "foreign"}]
         self.variants = list(kw.pop("variants", []))               # lemma text: local name -> contract key
         if kw:
@@ -73,9 +77,19 @@ class ClassInfo:
 def contract(key, **kw):
     if key in CONTRACTS:
         raise KeyError(f"duplicate contract {key}")
+    saved = {k: (list(v) if isinstance(v, list) else (dict(v) if isinstance(v, dict) else v)) for k, v in kw.items()}
     c = Contract(key, **kw)
+    c._kw = saved
     CONTRACTS[key] = c
     return c
+
+
+def clone_contract(key, newkey, **overrides):
+    """same specification under another key, e.g. "Base.m@Derived" (the base-class body run on a derived
+    receiver, as reached through super())"""
+    kw = dict(CONTRACTS[key]._kw)
+    kw.update(overrides)
+    return contract(newkey, **kw)
 
 
 def classinfo(name, module, fields, bases=(), inv=None, consts=None):
